@@ -245,6 +245,13 @@ func (s *hSim) monitor(q hReq, o hObs) {
 			s.violate(prop, "the store returned tokens that no SetTokenResponse ever stored under that session id (session data was modified in place: unvalidated tokens leaked into the session)", b)
 		}
 	}
+	// ---- C04 / C06 / C12: login state changes only through the store's write methods
+	for _, b := range s.w.ledger.takeBadAuth() {
+		b["request"] = q
+		for _, prop := range []string{"C04", "C06", "C12", "C03", "C13"} {
+			s.violate(prop, "the store returned a login state (state, nonce, requested URL, PKCE verifier) that no SetAuthorizationState ever stored under that session id: the pending login of one session was overwritten by something else (shared or recycled structure)", b)
+		}
+	}
 	// ---- C01 / C10: the session's own lifetime (absolute and idle timeout of the configured store)
 	if g := s.life[sid]; g != nil && sid != "" && !q.NoHTTP && (c.Abs > 0 || c.Idle > 0) {
 		if !g.dead && ((c.Idle > 0 && o.Now.Sub(g.last) > c.Idle) || (c.Abs > 0 && o.Now.Sub(g.created) > c.Abs)) {
@@ -331,6 +338,7 @@ func (s *hSim) monitor(q hReq, o hObs) {
 			}
 			if s.loggedOut[sid] && !s.schedMode {
 				s.violate("C09", "OK for a session after its logout was answered and before a new login completed", map[string]any{"request": q, "sid": sid})
+				s.violate("C01", "OK for a logged-out session (its logout had been answered, no new login completed)", map[string]any{"request": q, "sid": sid})
 			}
 		}
 	}
